@@ -525,19 +525,21 @@ def run(tier, seed):
             rep.add(Failure.from_json(f))
     # shadowing: a failing definition whose multiset of field kinds strictly contains that of another
     # failing definition (same relation, same packing) is not reported separately
-    from collections import Counter
     groups = {}
     for f in rep.failures:
         g = (f.sig[0], f.case.get("packed"), f.case.get("union"))
-        groups.setdefault(g, []).append(Counter(f.case.get("kinds", "").split("+")))
+        groups.setdefault(g, set()).add(tuple(sorted(f.case.get("kinds", "").split("+"))))
     kept = []
     for f in rep.failures:
         g = (f.sig[0], f.case.get("packed"), f.case.get("union"))
-        mine = Counter(f.case.get("kinds", "").split("+"))
+        mine = sorted(f.case.get("kinds", "").split("+"))
         sub = False
-        for other in groups[g]:
-            if other != mine and not (other - mine) and sum(other.values()) < sum(mine.values()):
-                sub = True
+        for r in range(1, len(mine)):
+            for idx in itertools.combinations(range(len(mine)), r):
+                if tuple(mine[i] for i in idx) in groups[g]:
+                    sub = True
+                    break
+            if sub:
                 break
         if not sub:
             kept.append(f)
